@@ -1,4 +1,5 @@
 mod corpus;
+mod dig;
 mod gen;
 mod imp;
 mod model;
